@@ -649,3 +649,11 @@ Example C03_example_exec :
   wf_matb 2 [[qcz 2; qcz 1]; [qcz 1; qcz 3]] = true /\ symb 2 [[qcz 2; qcz 1]; [qcz 1; qcz 3]] = true /\
   rtranspose 2 ((2 :: 1 :: nil) :: (1 :: 3 :: nil) :: nil)%R = ((2 :: 1 :: nil) :: (1 :: 3 :: nil) :: nil)%R.
 Proof. split; [reflexivity|]. split; reflexivity. Qed.
+
+(* non-vacuity of the all-forms theorem: a NON-symmetric sqrtcov M = [[2,1],[0,1]] (cov = M M^T = [[5,1],[1,1]]) and its
+   certificate P = cov^-1 pass the tests *)
+Example C03_example_all_forms :
+  implied_prec_ok 2 FSqrtCov (PMatrix [[qcz 2; qcz 1]; [qcz 0; qcz 1]]) [[qc (1 # 4); qc (-1 # 4)]; [qc (-1 # 4); qc (5 # 4)]] = true /\
+  param_symb 2 FSqrtCov (PMatrix [[qcz 2; qcz 1]; [qcz 0; qcz 1]]) = true /\
+  wf_matb 2 [[qc (1 # 4); qc (-1 # 4)]; [qc (-1 # 4); qc (5 # 4)]] = true.
+Proof. repeat split; reflexivity. Qed.
